@@ -66,13 +66,7 @@ Section GO.
     split; [exact A|]. split; [rewrite B; exact M|]. split; [exact D|]. intros W. apply recache_wf. exact W.
   Qed.
 
-  (* keys on which the map-less membership test is plain list membership: all but a non-integer-typed
-     key equal to a held position (1.0 on [0,1]) *)
-  Definition go_key_ok (g : go C) (k : key C) : bool :=
-    match g_map g with
-    | Some _ => true
-    | None => int_typed k || negb (memb ceqb (fst k) (g_mut g))
-    end.
+  Notation go_key_ok := (go_key_ok ceqb).
 
   Lemma go_contains_wf g k : go_wf g -> go_key_ok g k = true ->
     M_go_contains ceqb to_Z g k = memb ceqb (fst k) (g_mut g).
@@ -168,39 +162,93 @@ Section GO.
     - apply go_append_refines_alias; assumption.
   Qed.
 
-  Lemma go_extend_refines ks : forall g, go_wf g ->
+  (* ---- extend: validation first (fix c675c22), then the appends ---- *)
+  Lemma touch_fold_same ks : forall (g : go C), go_wf g ->
+    let g' := fold_left (M_go_touch_contains to_Z) ks g in
+    go_wf g' /\ g_mut g' = g_mut g.
+  Proof.
+    induction ks as [|k ks IH]; intros g W; cbn [fold_left]; [auto|].
+    pose proof (touch_same g k) as (Tm & _ & _ & Tw). cbn in Tm, Tw.
+    destruct (IH _ (Tw W)) as [W' M']. cbn in W', M'. split; [exact W' | congruence].
+  Qed.
+
+  Lemma validate_refines ks : forall (g : go C) seen, go_wf g -> forallb (go_key_ok g) ks = true ->
+    M_ext_validate ceqb to_Z g seen ks = S_ext_validate ceqb (g_mut g) seen ks.
+  Proof.
+    induction ks as [|k ks IH]; intros g seen W G; [reflexivity|].
+    cbn [forallb] in G. apply andb_true_iff in G as [G1 G2].
+    cbn [M_ext_validate S_ext_validate]. rewrite (go_contains_wf g k W G1), (IH g _ W G2). reflexivity.
+  Qed.
+
+  Lemma S_validate_ext ks : forall (l s l' s' : list C),
+    (forall y, memb ceqb y l || memb ceqb y s = memb ceqb y l' || memb ceqb y s') ->
+    S_ext_validate ceqb l s ks = S_ext_validate ceqb l' s' ks.
+  Proof.
+    induction ks as [|k ks IH]; intros l s l' s' H; [reflexivity|].
+    cbn [S_ext_validate]. rewrite (H (fst k)). destruct (memb ceqb (fst k) l' || memb ceqb (fst k) s'); [reflexivity|].
+    apply IH. intros y. cbn [memb]. specialize (H y).
+    destruct (ceqb y (fst k)), (memb ceqb y l), (memb ceqb y s), (memb ceqb y l'), (memb ceqb y s'); cbn in *; congruence.
+  Qed.
+
+  Lemma S_validate_shift l x s ks :
+    S_ext_validate ceqb l (x :: s) ks = S_ext_validate ceqb (l ++ [x]) s ks.
+  Proof.
+    apply S_validate_ext. intros y. rewrite (memb_app C ceqb ceqb_spec). cbn [memb].
+    destruct (memb ceqb y l), (ceqb y x), (memb ceqb y s); reflexivity.
+  Qed.
+
+  (* validated values are all appended *)
+  Lemma extend_seq_ok ks : forall (g : go C) seen, go_wf g -> S_ext_validate ceqb (g_mut g) seen ks = true ->
+    go_wf (fst (M_go_extend_seq ceqb to_Z g ks)) /\
+    g_mut (fst (M_go_extend_seq ceqb to_Z g ks)) = g_mut g ++ map fst ks /\
+    is_ok (snd (M_go_extend_seq ceqb to_Z g ks)) = true.
+  Proof.
+    induction ks as [|k ks IH]; intros g seen W V; cbn [M_go_extend_seq map].
+    - cbn. rewrite app_nil_r. auto.
+    - cbn [S_ext_validate] in V.
+      destruct (memb ceqb (fst k) (g_mut g)) eqn:Mb; [discriminate|].
+      destruct (memb ceqb (fst k) seen) eqn:Ms; [discriminate|]. cbn [orb] in V.
+      pose proof (go_append_refines g k W) as [W1 E1]. unfold S_go_append in E1. rewrite Mb in E1.
+      destruct (M_go_append ceqb to_Z g k) as [g1 r]. cbn [fst snd] in *. injection E1 as Em Er.
+      destruct r as [u|e]; [|discriminate].
+      rewrite S_validate_shift, <- Em in V. destruct (IH g1 seen W1 V) as (W2 & M2 & O2).
+      split; [exact W2|]. split; [|exact O2]. rewrite M2, Em, <- app_assoc. reflexivity.
+  Qed.
+
+  Lemma go_extend_refines ks (g : go C) : go_wf g -> forallb (go_key_ok g) ks = true ->
     go_wf (fst (M_go_extend ceqb to_Z g ks)) /\
     (g_mut (fst (M_go_extend ceqb to_Z g ks)), is_ok (snd (M_go_extend ceqb to_Z g ks))) = S_go_extend ceqb (g_mut g) ks.
   Proof.
-    induction ks as [|k ks IH]; intros g W; cbn [M_go_extend S_go_extend] in *.
-    - cbn. auto.
-    - pose proof (go_append_refines g k W) as [W1 E1].
-      destruct (M_go_append ceqb to_Z g k) as [g1 r] eqn:Ea. cbn [fst snd] in *.
-      rewrite <- E1. destruct r as [u|e]; cbn [is_ok].
-      + apply IH; assumption.
-      + cbn. auto.
+    intros W G. unfold M_go_extend, S_go_extend, Gen_c02.gen_extend_validates_first. cbv iota.
+    rewrite (validate_refines ks g [] W G).
+    destruct (touch_fold_same ks g W) as [W1 M1]. cbn in W1, M1.
+    destruct (S_ext_validate ceqb (g_mut g) [] ks) eqn:V.
+    - rewrite <- M1 in V. destruct (extend_seq_ok ks _ [] W1 V) as (W2 & M2 & O2).
+      split; [exact W2|]. rewrite M2, O2, M1. reflexivity.
+    - cbn [fst snd is_ok]. split; [exact W1|]. rewrite M1. reflexivity.
   Qed.
 
-  Lemma go_step_refines g o : go_wf g ->
+  Lemma go_step_refines g o : go_wf g -> go_step_dom ceqb g o = true ->
     go_wf (fst (M_go_step ceqb to_Z g o)) /\
     (g_mut (fst (M_go_step ceqb to_Z g o)), is_ok (snd (M_go_step ceqb to_Z g o))) = S_go_step ceqb (g_mut g) o.
   Proof.
-    intros W. destruct o as [k|ks|]; cbn [M_go_step S_go_step] in *.
+    intros W G. destruct o as [k|ks|]; cbn [M_go_step S_go_step go_step_dom] in *.
     - apply go_append_refines; assumption.
     - apply go_extend_refines; assumption.
     - cbn. split; [apply recache_wf; exact W|]. pose proof (recache_same g) as (A & _). cbn in A. rewrite A. reflexivity.
   Qed.
 
   (* every history: the implementation state abstracts to the specification list, outcome by outcome *)
-  Theorem go_run_refines ops : forall g, go_wf g ->
+  Theorem go_run_refines ops : forall g, go_wf g -> go_dom ceqb to_Z g ops = true ->
     go_wf (fst (M_go_run ceqb to_Z g ops)) /\
     (g_mut (fst (M_go_run ceqb to_Z g ops)), map is_ok (snd (M_go_run ceqb to_Z g ops))) = S_go_run ceqb (g_mut g) ops.
   Proof.
-    induction ops as [|o ops IH]; intros g W; cbn [M_go_run S_go_run] in *.
+    induction ops as [|o ops IH]; intros g W G; cbn [M_go_run S_go_run go_dom] in *.
     - cbn. auto.
-    - pose proof (go_step_refines g o W) as [W1 E1].
+    - apply andb_true_iff in G as [G1 G2].
+      pose proof (go_step_refines g o W G1) as [W1 E1].
       destruct (M_go_step ceqb to_Z g o) as [g1 r] eqn:Es. cbn [fst snd] in *.
-      specialize (IH g1 W1). destruct IH as [W2 E2].
+      specialize (IH g1 W1 G2). destruct IH as [W2 E2].
       destruct (M_go_run ceqb to_Z g1 ops) as [g2 rs] eqn:Er. cbn [fst snd] in *.
       rewrite <- E1. rewrite <- E2. cbn. auto.
   Qed.
@@ -215,18 +263,36 @@ Section GO.
     - apply (memb_false C ceqb ceqb_spec) in E. split; [apply snoc_NoDup; assumption|]. split; [auto | discriminate].
   Qed.
 
+  Lemma S_validate_facts ks : forall (l s : list C), S_ext_validate ceqb l s ks = true ->
+    NoDup (map fst ks) /\ forall x, In x (map fst ks) -> ~ In x l /\ ~ In x s.
+  Proof.
+    induction ks as [|k ks IH]; intros l s V; cbn [map]; [split; [constructor | contradiction]|].
+    cbn [S_ext_validate] in V.
+    destruct (memb ceqb (fst k) l) eqn:Ml; [discriminate|]. destruct (memb ceqb (fst k) s) eqn:Ms; [discriminate|].
+    cbn [orb] in V. apply (memb_false C ceqb ceqb_spec) in Ml, Ms.
+    destruct (IH l (fst k :: s) V) as [ND H]. split.
+    - constructor; [|exact ND]. intros Hin. destruct (H _ Hin) as [_ Hs]. apply Hs. left. reflexivity.
+    - intros x [<-|Hin]; [auto|]. destruct (H _ Hin) as [Hl Hs]. split; [exact Hl|]. intros N. apply Hs. right. exact N.
+  Qed.
+
+  Lemma NoDup_app_mk (a b : list C) : NoDup a -> NoDup b -> (forall x, In x b -> ~ In x a) -> NoDup (a ++ b).
+  Proof.
+    induction a as [|x a IH]; intros Ha Hb H; [exact Hb|]. cbn. inversion Ha; subst. constructor.
+    - intros Hin. apply in_app_or in Hin. destruct Hin as [Hin|Hin]; [contradiction|]. apply (H x Hin). left. reflexivity.
+    - apply IH; [assumption | assumption |]. intros y Hy N. apply (H y Hy). right. exact N.
+  Qed.
+
+  (* an accepted extend appends exactly its values, in order; a rejected one changes nothing *)
   Lemma S_go_extend_laws ks : forall l, NoDup l ->
     NoDup (fst (S_go_extend ceqb l ks)) /\ exists added, fst (S_go_extend ceqb l ks) = l ++ added /\
       (forall x, In x added -> In x (map fst ks)).
   Proof.
-    induction ks as [|k ks IH]; intros l ND; cbn [S_go_extend].
-    - cbn. split; [exact ND|]. exists []. rewrite app_nil_r. split; [reflexivity | contradiction].
-    - pose proof (S_go_append_laws l k ND) as L. destruct (S_go_append ceqb l k) as [l1 ok].
-      destruct L as (ND1 & Ht & Hf). destruct ok.
-      + destruct (Ht eq_refl) as [-> _]. destruct (IH _ ND1) as (ND2 & added & E & Hin).
-        split; [exact ND2|]. exists (fst k :: added). rewrite E, <- app_assoc. split; [reflexivity|].
-        intros x [<-|H]; cbn; auto.
-      + cbn. destruct (Hf eq_refl) as [-> _]. split; [exact ND|]. exists []. rewrite app_nil_r. split; [reflexivity | contradiction].
+    intros l ND. unfold S_go_extend. destruct (S_ext_validate ceqb l [] ks) eqn:V; cbn [fst].
+    - split.
+      + destruct (S_validate_facts ks l [] V) as [NDk H]. apply NoDup_app_mk; [exact ND | exact NDk |].
+        intros x Hx. apply (H x Hx).
+      + exists (map fst ks). auto.
+    - split; [exact ND|]. exists []. rewrite app_nil_r. split; [reflexivity | contradiction].
   Qed.
 
   (* the labels after any history: duplicate-free, the initial labels as a prefix, nothing lost *)
